@@ -319,7 +319,11 @@ def obligations(prog):
         f_ = prog.fn(fn_)
         cs = [(el, c) for el, c in f_.all_calls() if callee_name(c) == callee_]
         if not cs:
-            raise AnalysisBroken("R-CHK: %s no longer calls %s" % (fn_, callee_))
+            # the helper was inlined or moved: nothing to compare (never an alarm, never a broken analysis)
+            obs.append(Obligation("R-CHK", "R-CHK:%s:%s:ignored" % (fn_, callee_), f_.loc, fn_,
+                                  "the result of %s stays ignored in %s: %s" % (callee_, fn_, why_), True,
+                                  "NOT DECIDED: %s no longer calls %s" % (fn_, callee_), props=props_))
+            continue
         for el, c in cs:
             used_val = not (el.top and (el.e is c or (kind(el.e) == "call" and el.e[2] == c[2])))
             obs.append(Obligation("R-CHK", "R-CHK:%s:%s:ignored" % (fn_, callee_), el.loc, fn_,
